@@ -10,7 +10,7 @@ PROOF_MODULES = ["GrpcProofs.Properties.C38"]
 THEOREMS = ["GrpcProofs.C38." + t for t in (
     "search_spec", "random_range", "random_range_positive", "next_counts", "next_counts_equal",
     "zero_weight_never", "next_in_bounds",
-    "gcd_is_gcd", "drop_fraction_exact", "requests_per_million_exact", "drop_category_fraction",
+    "gcd_is_gcd", "drop_fraction_exact", "requests_per_million_exact", "drop_category_fraction", "droppers_follow_latest_config",
     "drops_only_when_ready", "drop_iff_first_firing_category",
     "admitted_only_below_max", "sequential_inflight_le_max", "inflight_is_admitted_minus_finished",
     "inflight_returns_to_zero",
@@ -26,7 +26,7 @@ LEVEL_TEXT = ("Machine-checked Lean proof that, over the whole range of the rand
               "denominators, that category drops happen only when the child is READY and by the first firing category, that "
               "circuit breaking admits only below max_requests and the request count equals admitted minus finished, and that "
               "the EDF selector over exact rationals keeps c_i/w_i <= (c_j+1)/w_j and returns item i exactly w_i times per Σw picks.")
-LEVEL_NOTE = ("`probability` is read as the count over the uniform random source rand.Int64N(range) (range = Σw, or n for equal "
+LEVEL_NOTE = ("EDS update path: the drop part of handleClusterConfigLocked is ported as handleDrops (droppers_follow_latest_config: after any update sequence the droppers are those of the latest configuration) and the real handleClusterConfigLocked + newPickerLocked are driven through update sequences; the monitor also demands that every consulted dropper draws from the range 10^6/gcd(rate,10^6) of its CURRENT rate. Dictated random values are reduced modulo the range the code asks for (so any sub-sequence replays). `probability` is read as the count over the uniform random source rand.Int64N(range) (range = Σw, or n for equal "
               "weights), which the harness enumerates or dictates. EDF theorems are about exact rational deadlines; the float64 "
               "code is diffed pick by pick against the Float instance of the same definition and its counts are monitored with "
               "|c_i/w_i - c_j/w_j| <= 1/w_i + 1/w_j and exact per-cycle counts. Weights are non-negative (all callers pass uint32); "
@@ -40,7 +40,9 @@ RULE = ("renum: every weight list over {0,1,2,3} of length <= 4 plus random list
         "edf/enext: weights 1..1000 (powers of two, primes, equal), prefixes of several cycles; gcd/rpm: boundary and random "
         "numerators incl. numerator > denominator; denum: droppers for boundary/random requests-per-million, whole random source; "
         "pk/pick/done: random picker configurations (READY or not, 0-3 categories, max_requests 0..5 or none), random values at the "
-        "drop thresholds, random completions, final drain. Non-trivial: the case contains a Next/enumeration/pick.")
+        "drop thresholds, random completions, final drain. cfgupd: sequences of EDS updates through the real "
+        "handleClusterConfigLocked/newPickerLocked (same category with a changed rate, add/remove/reorder, repeats, max_requests) "
+        "with picks at the thresholds of the current rates. Non-trivial: the case contains a Next/enumeration/pick.")
 
 MILLION = 10 ** 6
 
@@ -119,6 +121,58 @@ def picker_case(rng, length):
         ops.append("done %d" % i)
     ops.append("pk 1 3 -")
     ops.append("pick 1 -")
+    return ops
+
+
+def eds_case(rng, length):
+    """EDS updates through the REAL handleClusterConfigLocked + newPickerLocked: categories keep their names while their
+    rates change, categories are added / removed / reordered, identical updates are repeated; picks in between use random
+    values at the drop thresholds of the CURRENT rates."""
+    names = ["throttle", "lb", "overload"]
+    dens = [100, 10000, MILLION]
+    cur = []
+    ops = []
+
+    def rate():
+        den = rng.choice(dens)
+        num = rng.choice([0, 1, den // 2, den // 4, den // 10, den - 1, den, den + 1, rng.randrange(0, den + 1)])
+        return num, den
+
+    def emit():
+        mx = rng.choice(["-", "-", "3", "5"])
+        ops.append("cfgupd %d %s %s" % (rng.random() < 0.85, mx, ",".join("%s:%d:%d" % c for c in cur) or "-"))
+
+    for nm in rng.sample(names, rng.randrange(1, 3)):
+        cur.append((nm,) + rate())
+    emit()
+    npicks = 0
+    for _ in range(length):
+        r = rng.random()
+        if r < 0.30:
+            k = rng.random()
+            if k < 0.55 and cur:
+                i = rng.randrange(len(cur))
+                cur[i] = (cur[i][0],) + rate()            # same category, new rate
+            elif k < 0.70 and len(cur) < 3:
+                nm = rng.choice([x for x in names if x not in [c[0] for c in cur]])
+                cur.insert(rng.randrange(len(cur) + 1), (nm,) + rate())
+            elif k < 0.80 and cur:
+                cur.pop(rng.randrange(len(cur)))
+            elif k < 0.90:
+                rng.shuffle(cur)
+            emit()
+        elif r < 0.90:
+            rs = []
+            for _, num, den in cur:
+                rpm = min(num * MILLION // den, MILLION)
+                b = bound_of(rpm)
+                p = rpm // math.gcd(rpm, MILLION)
+                x = rng.choice([0, b - 1, p, p - 1, p + 1, rng.randrange(b), p, p - 1])
+                rs.append(min(max(x, 0), b - 1))
+            ops.append("pick %d %s" % (rng.random() < 0.9, csv(rs)))
+            npicks += 1
+        else:
+            ops.append("done %d" % rng.randrange(0, npicks + 1))
     return ops
 
 
@@ -217,6 +271,9 @@ def gen(rng, tier):
         yield Case("wrrrandom", o, "edf-%d" % j)
     yield Case("wrrrandom", ["edf -", "enext 1", "rw -", "rnext 0"], "empty")
 
+    # EDS update sequences through the real cluster-config path
+    for j in range({"quick": 150, "thorough": 4000, "search": 2000}[tier]):
+        yield Case("wrrrandom", eds_case(rng, rng.randrange(8, 50)), "eds-%d" % j)
     # pickers
     for j in range(n_pk):
         yield Case("wrrrandom", picker_case(rng, rng.randrange(5, 60)), "picker-%d" % j)
